@@ -58,6 +58,8 @@ NOTES = {
     'C16_8': 'arrangement in which the main file\'s directory is also the first -I entry and nested includes live in a sub directory',
     'C17_9': 'a patched name defined in two inputs of one run: each as when compiled alone',
     'C17_10': 'patch rules applied to the prophy-text front-end, model layout against the equivalent schema',
+    'C10_8': 'union with two struct arms in the zoo; the hidden part of a state now carries the stored values, not only the '
+             'stored keys: histories that left 0 and 1 in an abandoned arm were merged, and only the 0 one was extended',
     'C06_9': 'hand-written descriptors in which two struct definitions share one array / bytes type object and the blocks '
              'behind it are aligned differently (both definition orders); valid encodings must decode, and to the same bytes',
     'C20_9': 'array size x size2 over enumerators of two enums in a struct that a typedef pulls forward',
